@@ -230,8 +230,8 @@ func (f *remoteWrapper) Sync(limitItem proxyv1alpha1.RateLimitItemConfiguration)
 	// configured global limit at all. Such an answer is treated like a missing one.
 	limitItem, ok := f.matchSchemaType(limitItem)
 	if !ok {
-		klog.Errorf("[remote limiter] cluster=%q name=%q ignore limit item that does not match the schema type: %+v",
-			f.flowControlCache.cluster, limitItem.Name, limitItem.LimitItemDetail)
+		klog.Errorf("[remote limiter] cluster=%q name=%q ignore limit item that does not match the schema type or strategy: %v %+v",
+			f.flowControlCache.cluster, limitItem.Name, limitItem.Strategy, limitItem.LimitItemDetail)
 		return
 	}
 
@@ -274,8 +274,12 @@ func (f *remoteWrapper) Sync(limitItem proxyv1alpha1.RateLimitItemConfiguration)
 }
 
 // matchSchemaType keeps the detail of the local schema's type only and reports whether
-// the item has it.
+// the item has it and is of the schema's strategy.
 func (f *remoteWrapper) matchSchemaType(limitItem proxyv1alpha1.RateLimitItemConfiguration) (proxyv1alpha1.RateLimitItemConfiguration, bool) {
+	if limitItem.Strategy != f.flowControlCache.local.Config().Strategy {
+		// an item of another strategy would build the limiter of that strategy
+		return limitItem, false
+	}
 	switch flowcontrol.GuessFlowControlSchemaType(f.flowControlCache.local.Config()) {
 	case proxyv1alpha1.MaxRequestsInflight:
 		limitItem.TokenBucket = nil
